@@ -32,6 +32,7 @@ RULE = ('Hypothesis generates an abstract package (1..8 models with names in sty
 RULE += (' ' + 'Also varied: stored units of SED files / cube / error columns, aperture axis stored in any order, SED files plain / .gz / in sub-directories, parameters.fits.gz, distance ranges that are a whole number of the package\'s steps up to rounding (relation: all variants use ONE distance grid). Entry "grid": the same convolved fluxes as a per-file and as a cube package fitted over such ranges (typed round numbers in pc / kpc).')
 RULE += (' ' + 'All four fitter variants (per-file, cube, cube+memmap, cube+memmap with reversed filters) are set up before any is used. Model names also come in styles whose <name>_sed.fits files sort differently from the names, and as ordinary words.')
 RULE += (' ' + 'In 3 of 5 cases one more filter is convolved into both packages at the end of the session, after write_parameters / write_parameter_ranges / extract_parameters ran on a fit; its file must follow the same row order and hold the same values.')
+RULE += (' ' + 'The aperture axis of the SED files and of the cube is stored in AU, cm or pc (independently); carried-over apertures are compared as lengths.')
 ASSUMPTIONS = [
     'per-file vs cube convolved values: 1e-10 relative for float64 cubes, 1e-5 for float32 cubes',
     'fits of each variant are checked against the reference fitter built from the exact reference convolution '
@@ -46,6 +47,9 @@ def cases(draw):
     law = draw(gen.wide_laws(8))
     nf = len(filters)
     k = of.extinction_pattern(law['wav'], law['chi'], [f['central'] for f in filters])
+    # the unit the aperture axis is stored in (SED files / cube): the convolved files carry the apertures over as lengths
+    pkg['sed_ap_unit'] = draw(st.sampled_from(['AU', 'AU', 'cm', 'pc']))
+    pkg['cube_ap_unit'] = draw(st.sampled_from(['AU', 'AU', 'cm', 'pc']))
     c = {'pkg': pkg, 'filters': filters, 'law': law, 'subdir': draw(st.sampled_from([0, 0, 2])),
          'av_range': draw(gen.av_ranges())}
     if pkg['apdep']:
@@ -100,6 +104,7 @@ def run_case(case, ctx):
     labels = {'storage_' + pkg['storage'], 'n_ap>1' if nap > 1 else 'n_ap=1', 'apdep' if pkg['apdep'] else 'not_apdep',
               'sed_unit_' + pkg.get('sed_unit', 'mJy').replace(' ', '_'), 'cube_unit_' + pkg.get('cube_unit', 'mJy'),
               'apertures_stored_' + pkg.get('ap_storage', 'asc'), 'cube_unc_unit_' + pkg.get('cube_unc_unit', 'same')}
+    labels.add('aperture_units_sed_%s_cube_%s' % (pkg.get('sed_ap_unit', 'AU'), pkg.get('cube_ap_unit', 'AU')))
     if f32:
         labels.add('float32_cube')
     if permuted:
@@ -139,9 +144,10 @@ def run_case(case, ctx):
                     fail('%s format: FILTWAV %r, filter central wavelength %r' % (what, t['filtwav'], f['central']),
                          'c07:filtwav')
                 if pkg['apertures'] is not None:
-                    if t['apertures'] is None or len(t['apertures']) != nap or \
-                            any(abs(a - pkg['apertures'][aidx[p_]]) > 1e-12 * a for p_, a in enumerate(t['apertures'])) or \
-                            str(t['aperture_unit']).lower() != 'au':
+                    # carried over as lengths: the values in the unit the file states, whichever unit that is
+                    ufac = dict((k_.lower(), 1. / v_) for k_, v_ in gen.AP_UNIT_FACTOR.items()).get(str(t['aperture_unit']).strip().lower())
+                    if t['apertures'] is None or len(t['apertures']) != nap or ufac is None or \
+                            any(abs(a * ufac - pkg['apertures'][aidx[p_]]) > 1e-10 * a * ufac for p_, a in enumerate(t['apertures'])):
                         fail('%s format: apertures %r %r, SED apertures %r AU' % (what, t['apertures'], t['aperture_unit'],
                                                                                  pkg['apertures']), 'c07:apertures')
                 spkg = c06mod.stored(pkg, fmt)
